@@ -225,6 +225,7 @@ func (p *simPeer) attach(c *fakeConn) {
 	p.mu.Lock()
 	p.conn = c
 	p.eof = false
+	p.stalled = false
 	p.session++
 	p.gate = make(chan struct{}, 1024)
 	p.readerDone = make(chan struct{})
@@ -344,7 +345,10 @@ func (p *simPeer) sendRaw(b []byte) error {
 	if c == nil {
 		return errors.New("no connection")
 	}
+	// a write nobody reads must not wedge the schedule: give up after 10 (virtual) seconds
+	c.SetWriteDeadline(time.Now().Add(10 * time.Second))
 	_, err := c.Write(b)
+	c.SetWriteDeadline(time.Time{})
 	return err
 }
 
